@@ -20,11 +20,13 @@ RULE = ("strings over {/ . a} exhaustively to length 8 (quick) / 10 (thorough) p
         ">= 2 characters (distinct by content) or the tree has >= 1 directory to climb")
 
 
-GATES = [  # every place a name enters the index: (file, function, the exact call, what must follow a rejection)
-    ("alpenhorn/cli/file/create.py", "create", "invalid_import_path(name)", "raise click.ClickException"),
-    ("alpenhorn/cli/acq/create.py", "create", "invalid_import_path(name)", "raise click.ClickException"),
-    ("alpenhorn/daemon/update.py", "UpdateableNode.update_import", "util.invalid_import_path(req.path)", "auto_import.import_request_done(req, 'invalid')"),
-    ("alpenhorn/daemon/auto_import.py", "_import_file", "invalid_import_path(str(acq_name))", "import_request_done(req, 'bad_acq')\n    return"),
+GATES = [  # every place a name enters the index: (file, function, the exact vetting calls, [(the refusing test, what must follow a rejection)])
+    ("alpenhorn/cli/file/create.py", "create", ["invalid_import_path(name)"], [("rejection_reason", "raise click.ClickException")]),
+    ("alpenhorn/cli/acq/create.py", "create", ["invalid_import_path(name)"], [("rejection_reason", "raise click.ClickException")]),
+    ("alpenhorn/daemon/update.py", "UpdateableNode.update_import", ["util.invalid_import_path(req.path)"], [("rejection_reason", "auto_import.import_request_done(req, 'invalid')")]),
+    # the detector's answer, and (since fix F-C06d) the file name that is left of the path once the acquisition is taken off
+    ("alpenhorn/daemon/auto_import.py", "_import_file", ["invalid_import_path(str(acq_name))", "invalid_import_path(str(file_name))"],
+     [("rejection_reason", "import_request_done(req, 'bad_acq')\n    return"), ("file_name is None or invalid_import_path(str(file_name))", "import_request_done(req, 'bad_acq')\n    return")]),
 ]
 
 
@@ -33,14 +35,17 @@ def gen(ctx):
 
     tree = T.parse(core.REPO / "alpenhorn/common/util.py")
     body = T.reject_clauses(tree, "invalid_import_path", "name")
-    for path, fn, call, after in GATES:
+    for path, fn, want, refusals in GATES:
         f = T.find_func(T.parse(core.REPO / path), fn)
         calls = [ast.unparse(x) for x in ast.walk(f) if isinstance(x, ast.Call) and ast.unparse(x.func).endswith("invalid_import_path")]
-        if calls != [call]:
-            raise T.Untranslatable(f"UNTRANSLATABLE: {path}:{fn} vets names as {calls}, expected exactly {call}")
-        guards = [x for x in ast.walk(f) if isinstance(x, ast.If) and ast.unparse(x.test) == "rejection_reason"]
-        if len(guards) != 1 or after not in ast.unparse(guards[0]):
-            raise T.Untranslatable(f"UNTRANSLATABLE: {path}:{fn} no longer refuses a rejected name with `{after}`")
+        if sorted(calls) != sorted(want):
+            raise T.Untranslatable(f"UNTRANSLATABLE: {path}:{fn} vets names as {calls}, expected exactly {want}")
+        for test, after in refusals:
+            guards = [x for x in ast.walk(f) if isinstance(x, ast.If) and ast.unparse(x.test) == test]
+            if len(guards) != 1 or after not in ast.unparse(guards[0]):
+                raise T.Untranslatable(f"UNTRANSLATABLE: {path}:{fn} no longer refuses a rejected name (`if {test}`) with `{after}`")
+    if "file_name = path.relative_to(acq_name)" not in ast.unparse(T.find_func(T.parse(core.REPO / "alpenhorn/daemon/auto_import.py"), "_import_file")):
+        raise T.Untranslatable("UNTRANSLATABLE: _import_file no longer derives the file name as path.relative_to(acq_name)")
     # local transfers stage the file inside the destination directory, never in the system's temporary directory
     iou = T.parse(core.REPO / "alpenhorn/io/ioutil.py")
     for fn in ("hardlink", "local_copy"):
@@ -285,10 +290,13 @@ def explore_detector_gate(ctx):
 
     from alpenhorn.daemon import auto_import as AI
     from alpenhorn.daemon import update as U
+    from alpenhorn.scheduler import pool
     from vf.harness import world as w
 
     base = ctx.tmp() / "detector"
-    spellings = ["2024/run", "2024/run/", "2024//run", "./2024/run", "2024/run/.", "2024/./run", "2024/run//", "2024/sub/../run", "/2024/run", "2024", "2024/", "./2024", ""]
+    spellings = ["2024/run", "2024/run/", "2024//run", "./2024/run", "2024/run/.", "2024/./run", "2024/run//", "2024/sub/../run", "/2024/run", "2024", "2024/", "./2024", "",
+                 # answers that are canonical names but not a proper parent of the path being imported: the whole path (file name "."), a longer one, a sibling, a string prefix
+                 "2024/run/a.dat", "2024/run/a.dat/x", "other", "2024/ru"]
     for sp in spellings:
         shutil.rmtree(base, ignore_errors=True)
         w.fresh_db()
@@ -300,18 +308,24 @@ def explore_detector_gate(ctx):
         w.extensions._id_ext = [lambda path, node_, _sp=sp: (_sp, None)]
         queue = w.StepQueue.make()
         un = U.UpdateableNode(queue, w.StorageNode.get(id=node.id))
+        pool.global_abort.clear()
         try:
             AI.import_file(un, queue, pathlib.PurePath("2024/run/a.dat"), True, None)
             exits, aborted = w.drain_with_workers(queue)
         finally:
             w.extensions._id_ext = [w.detect]
+            pool.global_abort.clear()
         names = [a.name for a in w.ArchiveAcq.select()]
+        fnames = [f.name for f in w.ArchiveFile.select()]
         ctx.count("detector-gate")
         ctx.distinct_add(("detector", sp))
-        rp = {"family": "detector-gate", "detector_returns": sp, "stored": names}
-        bad = [nm for nm in names if not canonical(nm)]
-        if bad or aborted:
-            ctx.fail("C06:gate", f"the import detector returned the acquisition name {sp!r}; stored acquisition names {names} (not canonical: {bad}); abort={aborted}", rp)
+        rp = {"family": "detector-gate", "detector_returns": sp, "stored": names, "stored_files": fnames}
+        bad = [nm for nm in names + fnames if not canonical(nm)]
+        not_parent = sp in ("2024/run/a.dat", "2024/run/a.dat/x", "other", "2024/ru")  # (a daemon that stops over such an answer stores no name: not this property's business)
+        if bad or (aborted and not not_parent):
+            ctx.fail("C06:gate", f"the import detector returned the acquisition name {sp!r} for the path '2024/run/a.dat'; stored acquisition names {names}, file names {fnames} (not canonical: {bad}); abort={aborted}", rp)
+        if sp == "2024" and (names, fnames) != (["2024"], ["run/a.dat"]):
+            ctx.fail("C06:gate", f"the canonical acquisition name {sp!r} from the detector was not accepted: {names} {fnames}", rp)
         if canonical(sp) and sp == "2024/run" and names != [sp]:
             ctx.fail("C06:gate", f"the canonical acquisition name {sp!r} from the detector was not accepted: {names}", rp)
     shutil.rmtree(base, ignore_errors=True)
